@@ -115,6 +115,8 @@ class StrlCheck:
             for k, n in need.items():
                 if tot.get(k, 0) < n:
                     inconclusive.append(f"{k}={tot.get(k, 0)} < {n}")
+            if tot.get("driver_starved", 0) > max(3, tot.get("trees", 1) * 0.03):
+                inconclusive.append(f"{tot.get('driver_starved')} driver steps were killed by the wall-clock limit with little CPU used (loaded machine)")
             if tot.get("status_tool_limit", 0) > tot.get("trees", 1) * 0.05:
                 inconclusive.append(f"{tot.get('status_tool_limit')} models exceeded the solver licence's size limit")
         cov = {"evaluations": tot.get("solutions_checked", 0), "distinct_nontrivial": len(nt),
